@@ -428,8 +428,6 @@ func (ipv6cp *IPV6CPStateMachine) receiveConfigureAck(pkt *LCPPacket) error {
 		return nil
 	}
 
-	ipv6cp.stopTimer()
-
 	switch ipv6cp.state {
 	case IPV6CPStateClosed, IPV6CPStateStopped:
 		ipv6cp.sendTerminateAck(pkt.Identifier)
@@ -440,6 +438,7 @@ func (ipv6cp *IPV6CPStateMachine) receiveConfigureAck(pkt *LCPPacket) error {
 		ipv6cp.sendConfigureRequest()
 		ipv6cp.setState(IPV6CPStateReqSent)
 	case IPV6CPStateAckSent:
+		ipv6cp.stopTimer()
 		ipv6cp.initializeRestartCount()
 		ipv6cp.setState(IPV6CPStateOpened)
 	case IPV6CPStateOpened:
@@ -455,8 +454,6 @@ func (ipv6cp *IPV6CPStateMachine) receiveConfigureNak(pkt *LCPPacket) error {
 	if pkt.Identifier != ipv6cp.lastIdentifier {
 		return nil
 	}
-
-	ipv6cp.stopTimer()
 
 	// Process NAK options
 	opts, _ := ParseLCPOptions(pkt.Data)
@@ -493,8 +490,6 @@ func (ipv6cp *IPV6CPStateMachine) receiveConfigureReject(pkt *LCPPacket) error {
 		return nil
 	}
 
-	ipv6cp.stopTimer()
-
 	switch ipv6cp.state {
 	case IPV6CPStateClosed, IPV6CPStateStopped:
 		ipv6cp.sendTerminateAck(pkt.Identifier)
@@ -514,18 +509,19 @@ func (ipv6cp *IPV6CPStateMachine) receiveConfigureReject(pkt *LCPPacket) error {
 
 // receiveTerminateRequest handles incoming Terminate-Request
 func (ipv6cp *IPV6CPStateMachine) receiveTerminateRequest(pkt *LCPPacket) error {
-	ipv6cp.stopTimer()
-
 	switch ipv6cp.state {
 	case IPV6CPStateClosed, IPV6CPStateStopped, IPV6CPStateClosing, IPV6CPStateStopping:
 		ipv6cp.sendTerminateAck(pkt.Identifier)
 	case IPV6CPStateReqSent, IPV6CPStateAckRcvd, IPV6CPStateAckSent:
+		ipv6cp.stopTimer()
 		ipv6cp.sendTerminateAck(pkt.Identifier)
 		ipv6cp.setState(IPV6CPStateStopped)
 	case IPV6CPStateOpened:
 		ipv6cp.zeroRestartCount()
 		ipv6cp.sendTerminateAck(pkt.Identifier)
 		ipv6cp.setState(IPV6CPStateStopping)
+		// Restart counter is zero: the next timeout finishes the layer (RFC 1661 zrc)
+		ipv6cp.startTimer()
 	}
 
 	return nil
@@ -533,12 +529,12 @@ func (ipv6cp *IPV6CPStateMachine) receiveTerminateRequest(pkt *LCPPacket) error 
 
 // receiveTerminateAck handles incoming Terminate-Ack
 func (ipv6cp *IPV6CPStateMachine) receiveTerminateAck(pkt *LCPPacket) error {
-	ipv6cp.stopTimer()
-
 	switch ipv6cp.state {
 	case IPV6CPStateClosing:
+		ipv6cp.stopTimer()
 		ipv6cp.setState(IPV6CPStateClosed)
 	case IPV6CPStateStopping:
+		ipv6cp.stopTimer()
 		ipv6cp.setState(IPV6CPStateStopped)
 	case IPV6CPStateAckRcvd:
 		ipv6cp.setState(IPV6CPStateReqSent)
@@ -648,8 +644,12 @@ func (ipv6cp *IPV6CPStateMachine) timeout() {
 		switch ipv6cp.state {
 		case IPV6CPStateClosing, IPV6CPStateStopping:
 			ipv6cp.sendTerminateRequest("Timeout")
-		case IPV6CPStateReqSent, IPV6CPStateAckRcvd, IPV6CPStateAckSent:
+		case IPV6CPStateReqSent, IPV6CPStateAckSent:
 			ipv6cp.sendConfigureRequest()
+		case IPV6CPStateAckRcvd:
+			// RFC 1661: TO+ in Ack-Rcvd is scr/Req-Sent - the peer's Ack was for the previous request
+			ipv6cp.sendConfigureRequest()
+			ipv6cp.setState(IPV6CPStateReqSent)
 		}
 	} else {
 		switch ipv6cp.state {
